@@ -200,3 +200,14 @@ for _acc, _def in _ACC.items():
                                                                f'self._baud_rate[i] > 0, {_N})')],
              ensures=[('is_the_share_it_is_named_after', f'forall(lambda i: at(result, i) == {_def}, {_N})')],
              use_at_calls=False, modifies=[])
+
+# the per-channel records handed to reports and to the spectrum assignment: each record carries that channel's own shares
+contract('gnpy.core.info.SpectralInformation.carriers', props=['C01', 'C07'], params={'self': SI()}, spec=SPEC_INV,
+         requires=[('inv', 'INV(self)')],
+         ensures=[('one_record_per_channel', f'len(result) == {_N}'),
+                  ('shares_of_that_channel', f'forall(lambda i: result[i].signal == self._signal_ratio[i] * self._pch[i] and '
+                                             f'result[i].ase == self._ase_ratio[i] * self._pch[i] and '
+                                             f'result[i].nli == self._nli_ratio[i] * self._pch[i], {_N})'),
+                  ('own_data', f'forall(lambda i: result[i].frequency == self._frequency[i] and result[i].baud_rate == self._baud_rate[i] '
+                               f'and result[i].slot_width == self._slot_width[i] and result[i].channel_number == self._channel_number[i], {_N})')],
+         use_at_calls=False, modifies=[])
